@@ -45,6 +45,7 @@ type cfg struct {
 	CON       bool
 	BlockWise bool
 	TokFamily bool   // caller-chosen tokens of different lengths that share bytes: b0, b000, 00b0
+	// "then": a further caller with a FRESH token starts after caller 0's call has returned (caller 0 may give up at the moment its response arrives)
 	Collide   string // "" | "reuse" (caller K reuses caller 0's outstanding token) | "race" (callers 0 and 1 use the same token concurrently) | "after" (caller K reuses caller 0's token after that call has returned)
 	Preempt   int
 	Env       int
@@ -78,7 +79,7 @@ func scenario(c cfg, mk func() transport) *mcx.Scenario {
 			}
 			tr := mk()
 			n := c.K
-			if c.Collide == "reuse" || c.Collide == "after" {
+			if c.Collide == "reuse" || c.Collide == "after" || c.Collide == "then" {
 				n = c.K + 1
 			}
 			callers := make([]*caller, n)
@@ -99,13 +100,16 @@ func scenario(c cfg, mk func() transport) *mcx.Scenario {
 					if (c.Collide == "reuse" || c.Collide == "after") && i == n-1 {
 						tok = message.Token{0xB0}
 					}
+					if c.Collide == "then" && i == n-1 {
+						tok = message.Token{0xB9, 0x01} // a fresh token: the follow-up request shares nothing with the first one
+					}
 					cctx, ccancel := context.WithCancel(context.Background())
 					callers[i] = &caller{token: tok, cancel: ccancel}
 					vrt.App(fmt.Sprintf("caller%d", i), func() {
 						if c.Collide == "reuse" && i == n-1 {
 							vrt.WaitUntil("reuser waits until the first request is on the wire", func() bool { return onWire[0] })
 						}
-						if c.Collide == "after" && i == n-1 {
+						if (c.Collide == "after" || c.Collide == "then") && i == n-1 {
 							vrt.WaitUntil("the token is reused once the first call has returned", func() bool { return callers[0].done })
 						}
 						req := tr.Acquire(cctx)
@@ -250,6 +254,14 @@ func scenario(c cfg, mk func() transport) *mcx.Scenario {
 							acts = append(acts, act{"dup", p, 1})
 						}
 					}
+					if giveUps < 1 && c.Collide == "then" {
+						// the caller gives up at the very moment its response arrives (both before it runs again)
+						for _, p := range pending {
+							if !p.answered && p.idx == 0 && !callers[0].gaveUp && !(p.con && !p.acked) {
+								acts = append(acts, act{"sepNON+giveup", p, 1})
+							}
+						}
+					}
 					if giveUps < 1 && c.Collide == "" {
 						for _, p := range pending {
 							if !p.answered && p.idx >= 0 && !callers[p.idx].gaveUp {
@@ -329,6 +341,13 @@ func scenario(c cfg, mk func() transport) *mcx.Scenario {
 						m := resp(message.Confirmable, tr.PeerMID())
 						p.answered, p.last = true, &m
 						tr.Inject(m)
+					case "sepNON+giveup":
+						giveUps++
+						m := resp(message.NonConfirmable, tr.PeerMID())
+						p.answered, p.last = true, &m
+						tr.Inject(m)
+						callers[p.idx].gaveUp = true
+						callers[p.idx].cancel()
 					case "giveup":
 						// the caller stops waiting; the peer may still answer later (a delayed response)
 						giveUps++
@@ -460,6 +479,7 @@ func main() {
 				scs = append(scs, scenario(cfg{T: t.name, K: 2, CON: con, BlockWise: bw, Collide: "reuse", Preempt: pb, Env: 0}, mk))
 				scs = append(scs, scenario(cfg{T: t.name, K: 2, CON: con, BlockWise: bw, Collide: "race", Preempt: ev.Pick(r, 1, 2), Env: 0}, mk))
 				scs = append(scs, scenario(cfg{T: t.name, K: 1, CON: con, BlockWise: bw, Collide: "after", Preempt: ev.Pick(r, 0, 1), Env: ev.Pick(r, 1, 2)}, mk))
+				scs = append(scs, scenario(cfg{T: t.name, K: 1, CON: con, BlockWise: bw, Collide: "then", Preempt: ev.Pick(r, 0, 1), Env: ev.Pick(r, 1, 2)}, mk))
 			}
 			if r.Lite() && con {
 				continue
